@@ -287,7 +287,88 @@ def check_total(c, st):
     return None
 
 
-CHECKS = {'roundtrip': check_roundtrip, 'quote': check_quote, 'unquote': check_unquote, 'fixed': check_fixed,
+def check_mutate(c, st):
+    """A URL object that lives on: after every mutation of its components (query_params through the whole
+    multi-dict API, path_parts, fragment, userinfo, port) it must render exactly like a URL freshly built
+    from the same components, and re-parse to them."""
+    uu = common.load('urlutils')
+    model = dict(c['start'])
+    model['query'] = [list(p) for p in model['query']]
+    u = build(model)
+    qp = u.query_params
+    for i, op in enumerate(c['ops']):
+        st.monitor_evals += 1
+        try:
+            name = op[0]
+            q = model['query']
+            if name == 'render':
+                u.to_text(full_quote=op[1])
+            elif name == 'qadd':
+                qp.add(op[1], op[2])
+                q.append([op[1], op[2]])
+            elif name == 'qset':
+                qp[op[1]] = op[2]
+                model['query'] = [p for p in q if p[0] != op[1]] + [[op[1], op[2]]]
+            elif name == 'qdel':
+                if any(p[0] == op[1] for p in q):
+                    del qp[op[1]]
+                    model['query'] = [p for p in q if p[0] != op[1]]
+            elif name == 'qpop':
+                if any(p[0] == op[1] for p in q):
+                    qp.pop(op[1])
+                    model['query'] = [p for p in q if p[0] != op[1]]
+            elif name == 'qpoplast':
+                if q:
+                    if len(op) > 1 and any(p[0] == op[1] for p in q):
+                        qp.poplast(op[1])
+                        idx = max(j for j, p in enumerate(q) if p[0] == op[1])
+                        del q[idx]
+                    elif len(op) == 1:
+                        qp.poplast()
+                        q.pop()
+            elif name == 'qupdate':
+                qp.update([tuple(p) for p in op[1]])
+                ks = set(p[0] for p in op[1])
+                model['query'] = [p for p in q if p[0] not in ks] + [list(p) for p in op[1]]
+            elif name == 'qextend':
+                qp.update_extend([tuple(p) for p in op[1]])
+                model['query'] = q + [list(p) for p in op[1]]
+            elif name == 'qclear':
+                qp.clear()
+                model['query'] = []
+            elif name == 'fragment':
+                u.fragment = op[1]
+                model['fragment'] = op[1]
+            elif name == 'path':
+                u.path_parts = tuple(op[1])
+                model['path'] = list(op[1])
+            elif name == 'userinfo':
+                u.username, u.password = op[1], op[2]
+                model['username'], model['password'] = op[1], op[2]
+            elif name == 'port':
+                u.port = op[1]
+                model['port'] = op[1]
+            else:
+                raise ValueError(op)
+        except Exception as e:
+            return ('mutate-raised:%s:%s' % (op[0], type(e).__name__), 'op %r raised %r (case %r)' % (op, e, c))
+        for full in (True, False):
+            got = outcome(lambda: u.to_text(full_quote=full))
+            want = outcome(lambda: build(model).to_text(full_quote=full))
+            if got != want:
+                prior = sorted(set(o[0] for o in c['ops'][:i + 1]))
+                return ('stale-render:after:%s' % '+'.join(prior)[:80],
+                        'after %r the long-lived URL renders %r, a URL freshly built from the same parts %r'
+                        % (c['ops'][:i + 1], got, want))
+        back = outcome(lambda: uu.URL(u.to_text(full_quote=True)).query_params.items(multi=True))
+        if back != ('ok', [(nfc(k), nfc(v)) for k, v in model['query']]):
+            return ('mutate-roundtrip:query', 'after %r query %r re-parses as %r' % (c['ops'][:i + 1], model['query'], back))
+    st.see(('mutate', repr(c['ops'])[:300]))
+    st.count('mutate_cases')
+    return None
+
+
+CHECKS = {'mutate': check_mutate, 'roundtrip': check_roundtrip, 'quote': check_quote, 'unquote': check_unquote, 'fixed': check_fixed,
           'total': check_total}
 
 
@@ -440,8 +521,49 @@ def gen_total(r):
     return {'kind': 'total', 'text': s}
 
 
+def gen_mutate(r):
+    start = gen_roundtrip(r)
+    start = {k: start[k] for k in ('scheme', 'host', 'port', 'username', 'password', 'path', 'query', 'fragment', 'v6')
+             if k in start}
+    keys = ['k', 'a', 'b;', 'c d', '']
+    ops = []
+
+    def val():
+        return r.choice(['v', '', 'x y', 'é', '1&2', None, 'p=q'])
+    for _ in range(r.randint(1, 12)):
+        k = r.choice(keys)
+        name = r.choices(['render', 'qadd', 'qset', 'qdel', 'qpop', 'qpoplast', 'qupdate', 'qextend', 'qclear',
+                          'fragment', 'path', 'userinfo', 'port'], [8, 10, 6, 4, 4, 8, 4, 4, 1, 3, 3, 2, 2])[0]
+        if name == 'render':
+            ops.append(['render', r.random() < 0.5])
+        elif name in ('qadd', 'qset'):
+            v = val()
+            if k == '' and v is None:
+                v = 'v'
+            ops.append([name, k, v])
+        elif name in ('qdel', 'qpop'):
+            ops.append([name, k])
+        elif name == 'qpoplast':
+            ops.append(['qpoplast'] if r.random() < 0.5 else ['qpoplast', k])
+        elif name in ('qupdate', 'qextend'):
+            ops.append([name, [[r.choice(keys[:4]), r.choice(['v', 'w', ''])] for _ in range(r.randint(0, 3))]])
+        elif name == 'qclear':
+            ops.append(['qclear'])
+        elif name == 'fragment':
+            ops.append(['fragment', rtext(r)])
+        elif name == 'path':
+            ops.append(['path', [''] + [rtext(r, 4) for _ in range(r.randint(0, 3))]])
+        elif name == 'userinfo':
+            ops.append(['userinfo', r.choice(['', 'u', rtext(r, 4)]), r.choice(['', 'p', rtext(r, 4)])])
+        else:
+            ops.append(['port', r.choice([None, 80, 8080, 1])])
+    return {'kind': 'mutate', 'start': start, 'ops': ops}
+
+
 def gen(r):
     x = r.random()
+    if x < 0.12:
+        return gen_mutate(r)
     if x < 0.35:
         return gen_roundtrip(r)
     if x < 0.45:
